@@ -1093,6 +1093,63 @@ func c18TPEval(c *core.Ctx, r *c18Runner, pc progenum.Case) {
 	os.Remove(path)
 }
 
+// c18LargeCounts: count mode with blocks executed 999999 .. 2^24+1 times: every
+// profile line is well formed and the loop body's count is the exact number of
+// iterations (counts live in AWK numbers, i.e. float64, on the way to the profile).
+func c18LargeCounts(c *core.Ctx, r *c18Runner) {
+	for _, n := range []int{999999, 1000000, 1000001, 12345678, 16777217} {
+		if !c.Mine() || c.Expired() {
+			continue
+		}
+		c18LargeEval(c, r, n)
+	}
+}
+
+func c18LargeEval(c *core.Ctx, r *c18Runner, n int) {
+	path := filepath.Join(r.dir, "lc.awk")
+	prof := filepath.Join(r.dir, "lc.prof")
+	src := fmt.Sprintf("BEGIN {\n\tfor (i = 0; i < %d; i++) {\n\t\tk++\n\t}\n\tprint k\n}\n", n)
+	if err := os.WriteFile(path, []byte(src), 0o644); err != nil {
+		panic(err)
+	}
+	os.Remove(prof)
+	cs := c18Case{Src: src, Mode: "count", Feature: fmt.Sprintf("large-count:%d", n)}
+	res := vexp.CoverRun([]string{path}, "count", false, prof, "", []string{"p", "1"}, []string{"E1", "x"})
+	c.Eval(1)
+	c.Add("states", 1)
+	c.Add("transitions", 1)
+	if res.Status != 0 || res.Stdout != fmt.Sprintf("%d\n", n) {
+		r.fail("large-count:run", cs, fmt.Sprintf("status=%d stdout=%q stderr=%q", res.Status, trunc(res.Stdout, 60), trunc(res.Stderr, 100)))
+		return
+	}
+	data, err := os.ReadFile(prof)
+	if err != nil {
+		r.fail("large-count:no-profile", cs, err.Error())
+		return
+	}
+	rows := strings.Split(strings.TrimSuffix(string(data), "\n"), "\n")
+	found := false
+	for i, row := range rows {
+		if i == 0 {
+			continue // mode line
+		}
+		m := c18LineRe.FindStringSubmatch(row)
+		if m == nil {
+			r.fail("large-count:profile-line-malformed", cs, fmt.Sprintf("line %d: %q", i+1, row))
+			return
+		}
+		if m[7] == strconv.Itoa(n) {
+			found = true
+		}
+	}
+	c.Outcome(fmt.Sprintf("large %d %v", n, found))
+	if !found {
+		r.fail("large-count:count-not-exact", cs, fmt.Sprintf("no block with count %d in %q", n, trunc(string(data), 300)))
+	}
+	os.Remove(path)
+	os.Remove(prof)
+}
+
 func c18Run(c *core.Ctx) {
 	// development aid: C18_DRY=1 only enumerates, renders, parses and counts the planned process runs
 	dry := os.Getenv("C18_DRY") != ""
@@ -1164,6 +1221,7 @@ func c18Run(c *core.Ctx) {
 	})
 	if r != nil && !dry {
 		c18Transparency(c, r)
+		c18LargeCounts(c, r)
 	}
 	if r != nil {
 		var sigs []string
@@ -1191,6 +1249,11 @@ func c18Replay(c *core.Ctx, raw json.RawMessage) {
 	}
 	defer os.RemoveAll(dir)
 	r := c18NewRunner(c, dir, 0)
+	if strings.HasPrefix(cs.Feature, "large-count:") {
+		n, _ := strconv.Atoi(strings.TrimPrefix(cs.Feature, "large-count:"))
+		c18LargeEval(c, r, n)
+		return
+	}
 	if strings.HasPrefix(cs.Feature, "expression:") {
 		c18TPEval(c, r, progenum.Case{Family: strings.TrimPrefix(cs.Feature, "expression:"), Src: cs.Src})
 		return
@@ -1214,7 +1277,7 @@ func init() {
 			"fully explored levels also: three -f files at every pair of line boundaries x count mode x {input 2 fresh, input 1 appended}; " +
 			"full product for levels A and B (thorough A n=3 / B a+b=2 in K&R layout and level C n=3: split files x both modes x {input 1 fresh, input 2 appended}; thorough C n=4: split files x {count, input 2, append off}). " +
 			"state = one program text, transition = one goawk process run with -coverprofile; " +
-			"each transition is compared with the run without coverage (stdout, status) and every line of its profile with the file contents, the parsed statement lists and the reference evaluator's per-statement execution counts; distinct = distinct (profile, stdout, status) Transparency alone (stdout, stderr class, exit status equal without coverage / set / count) additionally over the expression-level program families of C01 (concatenation groupings, misc, builtins, calls, control, boolean values, empty bodies; thorough: conditions and lvalue forms), in-process.",
+			"each transition is compared with the run without coverage (stdout, status) and every line of its profile with the file contents, the parsed statement lists and the reference evaluator's per-statement execution counts; distinct = distinct (profile, stdout, status) Transparency alone (stdout, stderr class, exit status equal without coverage / set / count) additionally over the expression-level program families of C01 (concatenation groupings, misc, builtins, calls, control, boolean values, empty bodies; thorough: conditions and lvalue forms), in-process. Count mode with a loop body executed 999999 / 10^6 / 10^6+1 / 12345678 / 2^24+1 times: well-formed profile lines, exact count.",
 		Assumptions: []string{
 			"every 40th (thorough: 10th) program is observed on the real CLI binary built from the current tree (subprocess, environment {E1,E2} only); the others run the same steps as goawk.go's main in-process (vexp.CoverRun: FileReader, parse, cover.Annotate, re-resolve, re-compile, execute, WriteProfile), because a process start costs 10-30 ms in this sandbox",
 			"the run without coverage is made once per program and input with a single -f file; when a coverage run on split files differs from it, the run without coverage is repeated on exactly those files and that result decides",
